@@ -1,6 +1,6 @@
 (* C18: parallelize delivers every row exactly once under every schedule. *)
 From Coq Require Import List ZArith Bool Permutation.
-From DF Require Import Conc.Parallelize Conc.Parallelize_proofs.
+From DF Require Import Conc.Parallelize Conc.Parallelize_proofs Conc.Parallelize_live.
 Import ListNotations.
 
 (* Safety, for every number of workers, every input and every interleaving of queue
@@ -30,6 +30,30 @@ Proof.
   rewrite init_measure in B. apply (PeanoNat.Nat.le_trans _ (length ls + mu s)); [apply PeanoNat.Nat.le_add_r|exact B].
 Qed.
 Print Assumptions C18_schedules_are_bounded.
+
+(* No deadlock, for every number of workers n >= 1, every input and every interleaving: as long as
+   the collector has not seen the end marker, some activity can take a step *)
+Theorem C18_no_deadlock : forall n input ls s, 1 <= n ->
+  run (init n input) ls = Some s -> c_done s = false -> enabled s <> [].
+Proof. exact no_deadlock. Qed.
+Print Assumptions C18_no_deadlock.
+
+(* Complete delivery: a state in which nothing can move (the end of every maximal schedule, which
+   C18_schedules_are_bounded says is reached within 6 * (rows + workers) operations) has c_done set
+   and has delivered exactly the input rows *)
+Theorem C18_stuck_is_complete : forall n input ls s, 1 <= n ->
+  run (init n input) ls = Some s -> enabled s = [] ->
+  c_done s = true /\ Permutation (map iid (delivered s)) (map iid input).
+Proof. exact stuck_is_complete. Qed.
+Print Assumptions C18_stuck_is_complete.
+
+(* and the collector never stops early: whenever it has seen the end marker every input row has
+   been delivered already and every activity has finished *)
+Theorem C18_done_is_complete_and_terminal : forall n input ls s, 1 <= n ->
+  run (init n input) ls = Some s -> c_done s = true ->
+  Permutation (map iid (delivered s)) (map iid input) /\ (forall l, fire s l = None).
+Proof. exact done_is_complete_and_terminal. Qed.
+Print Assumptions C18_done_is_complete_and_terminal.
 
 Example C18_nonvacuous :
   let a := {| iid := 0; isel := true; idone := false |} in
